@@ -140,14 +140,16 @@ def wfe(cpu, o, row):
         cpu.s['event_register'] = False
     else:
         if cpu.have_virt() and not cpu.is_secure() and cpu.mode != M_HYP and (cpu.s['hcr'] >> 14) & 1:
-            raise RefNotModelled('WFE trapped to Hyp mode')
+            cpu.unknown.add('hsr')                     # HCR.TWE: trapped only when the WFE would actually wait
+            raise RefHypTrap()
         cpu.s['wfe'] = True
 
 
 @sem('wfi')
 def wfi(cpu, o, row):
     if cpu.have_virt() and not cpu.is_secure() and cpu.mode != M_HYP and (cpu.s['hcr'] >> 13) & 1:
-        raise RefNotModelled('WFI trapped to Hyp mode')
+        cpu.unknown.add('hsr')                         # HCR.TWI
+        raise RefHypTrap()
     cpu.s['wfi'] = True
 
 
